@@ -303,6 +303,10 @@ pub fn random_rln_witness(tree_height: usize) -> RLNWitnessInput {
 
 pub fn proof_values_from_witness(rln_witness: &RLNWitnessInput) -> Result<RLNProofValues> {
     message_id_range_check(&rln_witness.message_id, &rln_witness.user_message_limit)?;
+    merkle_path_shape_check(
+        &rln_witness.path_elements,
+        &rln_witness.identity_path_index,
+    )?;
 
     // y share
     let a_0 = rln_witness.identity_secret;
@@ -628,6 +632,10 @@ pub fn inputs_for_witness_calculation(
     rln_witness: &RLNWitnessInput,
 ) -> Result<[(&str, Vec<Fr>); 7]> {
     message_id_range_check(&rln_witness.message_id, &rln_witness.user_message_limit)?;
+    merkle_path_shape_check(
+        &rln_witness.path_elements,
+        &rln_witness.identity_path_index,
+    )?;
 
     let mut identity_path_index = Vec::with_capacity(rln_witness.identity_path_index.len());
     rln_witness
@@ -805,6 +813,22 @@ pub fn rln_witness_to_bigint_json(rln_witness: &RLNWitnessInput) -> Result<serde
     });
 
     Ok(inputs)
+}
+
+/// Checks that the Merkle path of a witness has one direction bit per path element and that every
+/// direction value is 0 or 1 (anything else cannot satisfy the circuit).
+pub fn merkle_path_shape_check(path_elements: &[Fr], identity_path_index: &[u8]) -> Result<()> {
+    if path_elements.len() != identity_path_index.len() {
+        return Err(color_eyre::Report::msg(
+            "path_elements and identity_path_index have different lengths",
+        ));
+    }
+    if identity_path_index.iter().any(|direction| *direction > 1) {
+        return Err(color_eyre::Report::msg(
+            "identity_path_index contains a value that is not 0 or 1",
+        ));
+    }
+    Ok(())
 }
 
 pub fn message_id_range_check(message_id: &Fr, user_message_limit: &Fr) -> Result<()> {
